@@ -10,8 +10,8 @@ open SpyneModel
 
 /-- the flat-dict value a key carries -/
 def KV.enc : KV → EncVal
-  | .prims false vs => .one (vs.head?.getD .none)
-  | .prims true vs => .many vs
+  | .prims p false vs => .one p (vs.head?.getD .none)
+  | .prims p true vs => .many p vs
   | .emptyArr => .empty
   | .emptyObj _ => .empty
 
@@ -165,12 +165,12 @@ theorem enc_expInto (F : Facts03) (delim : Text) : ∀ (N : Nat) (fields : List 
         obtain ⟨occ', p, hl', hm, _⟩ := hwv
         rw [hl] at hl'; simp only [Option.some.injEq, Prod.mk.injEq] at hl'
         obtain ⟨_, rfl, rfl⟩ := hl'
-        simp [expNode, hm, encTy, kentriesVal, flatOf, KV.enc, renderSeg]
+        simp [expNode, hm, encTy, kentriesVal, flatOf, KV.enc, renderSeg, primOf, hl]
       | leaves vs =>
         obtain ⟨occ', p, hl', hm, _⟩ := hwv
         rw [hl] at hl'; simp only [Option.some.injEq, Prod.mk.injEq] at hl'
         obtain ⟨_, rfl, rfl⟩ := hl'
-        simp [expNode, hm, kentriesVal, flatOf, KV.enc, renderSeg]
+        simp [expNode, hm, kentriesVal, flatOf, KV.enc, renderSeg, primOf, hl]
       | emptyObj => simp [InOrderVal] at hov
       | obj ms' =>
         obtain ⟨occ', cid, sub, hl', hm, hne', hwt'⟩ := hwv
@@ -312,7 +312,7 @@ theorem enc_expInto (F : Facts03) (delim : Text) : ∀ (N : Nat) (fields : List 
 /-- the values of the flat dict, written as text: the documented flat document -/
 theorem toDoc_flatOf (F : Facts03) (delim : Text) (fields : List Fld) (ms : Members)
     (hv : ∀ e, e ∈ kentries fields ms → (match e.kv with
-        | .prims false vs => vs.length = 1 | .prims true vs => vs ≠ [] | _ => True)) :
+        | .prims _ false vs => vs.length = 1 | .prims _ true vs => vs ≠ [] | _ => True)) :
     toDoc F (flatOf delim [] (kentries fields ms)) = docOf F delim fields ms := by
   unfold toDoc docOf flatOf
   have hkeep : ∀ e, e ∈ kentries fields ms →
@@ -320,7 +320,7 @@ theorem toDoc_flatOf (F : Facts03) (delim : Text) (fields : List Fld) (ms : Memb
     intro e he
     have := hv e he
     cases hkv : e.kv with
-    | prims many vs =>
+    | prims p many vs =>
       rw [hkv] at this
       cases many with
       | false =>
@@ -351,8 +351,8 @@ theorem toDoc_flatOf (F : Facts03) (delim : Text) (fields : List Fld) (ms : Memb
     rfl
 
 def KV.shape : KV → Prop
-  | .prims false vs => vs.length = 1
-  | .prims true vs => vs ≠ []
+  | .prims _ false vs => vs.length = 1
+  | .prims _ true vs => vs ≠ []
   | _ => True
 
 theorem kentries_shape (F : Facts03) : ∀ (N : Nat) (fields : List Fld) (ms : Members), msSize ms ≤ N →
@@ -401,7 +401,7 @@ theorem toDoc_encode (F : Facts03) (delim : Text) (fields : List Fld) (ms : Memb
   intro e he
   have := kentries_shape F _ fields ms (Nat.le_refl _) hwt e he
   cases hkv : e.kv with
-  | prims many vs => rw [hkv] at this; cases many <;> exact this
+  | prims p many vs => rw [hkv] at this; cases many <;> exact this
   | emptyArr => trivial
   | emptyObj _ => trivial
 
